@@ -377,6 +377,46 @@ class Kernel:
                             return True
         return False
 
+    def accumulator_inits(self):
+        """R-C03-2: array accumulators start as zeros OF THE SPECTRUM'S OWN dtype and shape."""
+        names = {a.split("[")[0] for a in getattr(self, "accs", set())}
+        for s_ in self.body:
+            for n in ast.walk(s_):
+                if not (isinstance(n, ast.Assign) and len(n.targets) == 1 and isinstance(n.targets[0], ast.Name) and n.targets[0].id in names):
+                    continue
+                vals = [n.value]
+                if isinstance(n.value, (ast.List, ast.ListComp)):
+                    vals = list(n.value.elts) if isinstance(n.value, ast.List) else [n.value.elt]
+                for v in vals:
+                    if not isinstance(v, ast.Call):
+                        continue
+                    cn = call_name(v).split(".")[-1]
+                    if cn not in ("zeros_like", "zeros", "empty", "empty_like", "full", "full_like", "ones_like", "ones"):
+                        continue
+                    dt = kwarg(v, "dtype")
+                    arg0 = unparse(v.args[0]) if v.args else ""
+                    same_dtype = dt is None or unparse(dt).replace(" ", "") == f"{self.spectrum}.dtype"
+                    if cn == "zeros_like" and arg0 == self.spectrum and same_dtype:
+                        self.ok("R-C03-2", n, unparse(n)[:90], "zeros of the input spectrum's own shape and dtype")
+                    elif cn == "zeros" and arg0 == f"{self.spectrum}.shape" and dt is not None and same_dtype:
+                        self.ok("R-C03-2", n, unparse(n)[:90], "zeros of the input spectrum's own shape and dtype")
+                    else:
+                        self.fail("R-C03-2", n, f"the accumulator must start as zeros with the shape AND dtype of '{self.spectrum}' "
+                                                f"(np.zeros_like({self.spectrum})): with another dtype the '+=' of original bins rounds them, so a "
+                                                "returned bin is neither the original density nor zero")
+
+    def unused_params(self):
+        """R-C03-5: every physical input of the kernel takes part in the result (a depth / wind argument that is accepted but
+        never read silently turns the wind-sea test into the deep-water / no-wind one)."""
+        used = {n.id for n in ast.walk(self.fi.node) if isinstance(n, ast.Name) and isinstance(n.ctx, ast.Load)}
+        for p_ in self.fi.params:
+            if p_ in used:
+                continue
+            self.rep.fail("R-C03-5", self.file, self.fi.node.lineno, self.fi.qualname, f"parameter '{p_}' of {self.name} is never read",
+                          f"'{p_}' is accepted but has no influence on the partitions: the wind-sea / wave-age test no longer depends on it",
+                          anchor=f"unused-parameter:{self.name}.{p_}")
+        self.ok("R-C03-5", self.fi.node, f"{len(self.fi.params)} parameters", "every parameter is read")
+
     def _is_zeros(self, e, scope):
         if isinstance(e, ast.Call) and call_name(e) in ("np.zeros_like", "numpy.zeros_like"):
             return True
@@ -513,6 +553,29 @@ def wrapper_sizes(repo, rep, kernels_lead):
                          f"the kernel returns {want} partitions on every path; a different declared size gives dask-backed results "
                          "another number of partitions than in-memory ones")
         # the count argument passed to the kernel must be the same name
+        # positional binding of the two spectra: kernel(spectrum, spectrum_smooth, ...) <- (self.dset, <smoothed or the same>)
+        for kf in ks:
+            if kf.name not in kernels_lead or len(kf.params) < 2 or "smooth" not in kf.params[1]:
+                continue
+            call = s.call
+            if len(call.args) < 3:
+                continue
+            a0, a1 = call.args[1], call.args[2]
+            from ..astutil import assignments
+            raw_ok = unparse(a0) in ("self.dset", "self._obj")
+            sm_ok = unparse(a1) in ("self.dset", "self._obj")
+            if isinstance(a1, ast.Name):
+                vals = [x.value for x in assignments(s.fi.node, a1.id)]
+                sm_ok = bool(vals) and all(unparse(v) in ("self.dset", "self._obj") or
+                                           any(isinstance(c_, ast.Call) and call_name(c_).split(".")[-1] in ("smooth_spec", "smooth") for c_ in ast.walk(v)) for v in vals) \
+                    and any(any(isinstance(c_, ast.Call) and call_name(c_).split(".")[-1] in ("smooth_spec", "smooth") for c_ in ast.walk(v)) for v in vals)
+            if raw_ok and sm_ok:
+                rep.ok("R-C03-2", s.where, f"{kf.name}({unparse(a0)}, {unparse(a1)}, ...)", "values from the raw spectrum, boundaries from the smoothed one")
+            else:
+                rep.fail("R-C03-2", s.fi.file, s.line, s.fi.qualname, f"{kf.name}({unparse(a0)}, {unparse(a1)}, ...)",
+                         f"the kernel's first argument '{kf.params[0]}' supplies the returned values and must be the raw spectrum (self.dset); the "
+                         f"second '{kf.params[1]}' only defines the boundaries: swapped, the partitions hold smoothed values, not the original density",
+                         anchor=f"wrapper-binding:{s.fi.name}")
     rep.floor("R-C03-4", "partition apply_ufunc wrappers", n, 4)
 
 
@@ -536,6 +599,8 @@ def run(repo, rep, tier):
         k.find_loop()
         k.analyse_loop()
         k.windsea_test()
+        k.accumulator_inits()
+        k.unused_params()
         k.order_and_count("parts" if name == "np_ptm3" else "swells")
         lead[name] = nfixed
     lead.update(HP01)
